@@ -68,6 +68,8 @@ type ExecResult struct {
 	RaceN    int // race reports produced by this execution (race build)
 }
 
+var raceSeen int
+
 // runScenario executes one schedule (choice prefix) of the scenario.
 func runScenario(sc Scenario, prefix []int8, epilogueRestart bool) *ExecResult {
 	beginExecution()
@@ -102,10 +104,12 @@ func runScenario(sc Scenario, prefix []int8, epilogueRestart bool) *ExecResult {
 			}
 		}
 	}
-	before := raceCount()
 	ex.Sched = sched.Run(prefix, fns...)
 	sched.SetMode(sched.ModeSeq)
-	ex.RaceN = raceCount() - before
+	// every report since the previous execution is attributed here (nothing is lost between executions)
+	now := raceCount()
+	ex.RaceN = now - raceSeen
+	raceSeen = now
 	for _, rs := range recs {
 		ex.Calls = append(ex.Calls, rs...)
 	}
